@@ -203,8 +203,20 @@ def check(col: Collector, tier: str):
         v = assigned[0].value
         ok_assign = isinstance(v, ast.ListComp) and len(v.generators) == 1 and src(v.elt) == v.generators[0].target.id \
             and len(v.generators[0].ifs) == 1 and "isinstance" in src(v.generators[0].ifs[0]) and "InjectCodeBlock" in src(v.generators[0].ifs[0])
-    col.add("C14.R3", "executor.apply_ast_transformations", "blocks-assigned-per-translation", ok_assign,
-            "self._inject_blocks must be assigned (not appended) the InjectCodeBlock items of this query's metadata, in order", aat.loc)
+    if not ok_assign and not assigned and len(appended) == 1:
+        # equivalent form: appended item by item in metadata order, starting from the list that reset() emptied (the pending-
+        # translation protocol checked by C07 guarantees reset ran since the previous query)
+        from sa.core.paths import enclosing, guards, parent_map
+        pma = parent_map(aat.node)
+        lps = enclosing(aat.node, appended[0], (ast.For,), pma)
+        gs = [src(t) for t, tr in guards(aat.node, appended[0], pma) if tr]
+        rs = repo.method("executor", "reset", hint="common.executor")
+        cleared = any(isinstance(n, ast.Assign) and src(n.targets[0]) == "self._inject_blocks" and src(n.value) in ("[]", "list()") for n in ast.walk(rs.node))
+        ok_assign = len(lps) == 1 and src(lps[0].iter) == "cpp_functions" and call_name(appended[0]) == "append" and \
+            src(appended[0].args[0]) == src(lps[0].target) and any("isinstance" in g and "InjectCodeBlock" in g for g in gs) and cleared
+    col.add("C14.R3", "executor.apply_ast_transformations", "blocks-collected-per-translation", ok_assign,
+            "self._inject_blocks must hold exactly the InjectCodeBlock items of this query's metadata, in order (assigned from them, or appended "
+            "one by one to the list reset() emptied)", aat.loc)
 
     # R4 duplicates and conflicts
     check_r4(col, repo)
